@@ -275,6 +275,7 @@ def main():
     if not ck.build():
         ck.finish()
     ck.check_props()
+    ck.check_translation("collection")
     N = 1500 if ck.quick else 12000
     cases = [gen_history(ck.rng, ck.quick) for _ in range(N)]
     # corpus: the property text's own witnesses first
